@@ -5,11 +5,17 @@ package service
 
 import (
 	"errors"
+	"io"
 	"net"
 	"time"
 
 	"github.com/Jigsaw-Code/outline-sdk/transport/shadowsocks"
+	"github.com/Jigsaw-Code/outline-ss-server/service/metrics"
 )
+
+type verifProxyMetrics = metrics.ProxyMetrics
+
+var verifIOEOF = io.EOF
 
 type verifTimeoutErr struct{}
 
@@ -137,4 +143,152 @@ func verifKey(cipher int, secret string) *shadowsocks.EncryptionKey {
 		panic(err)
 	}
 	return k
+}
+
+// ---- stream fakes ----
+
+type verifSRead struct {
+	data []byte
+	err  error
+}
+
+type verifStreamConn struct {
+	name        string
+	reads       []verifSRead
+	readPos     int
+	off         int
+	endErr      error // after the script (default io.EOF)
+	written     []byte
+	writeCalls  int
+	writeErr    error
+	events      []string
+	deadlines   []time.Time
+	remote      net.Addr
+	local       net.Addr
+	closed      int
+	closedRead  int
+	closedWrite int
+	bytesRead   int
+	readCalls   int
+	readsAfterEnd int
+	glog          *[]string // optional cross-connection event log
+}
+
+func (c *verifStreamConn) ev(name string) {
+	c.events = append(c.events, name)
+	if c.glog != nil {
+		*c.glog = append(*c.glog, c.name+":"+name)
+	}
+}
+
+func verifEOF() error { return verifIOEOF }
+
+func (c *verifStreamConn) Read(b []byte) (int, error) {
+	c.readCalls++
+	c.ev("Read")
+	for c.readPos < len(c.reads) {
+		r := &c.reads[c.readPos]
+		if r.err != nil {
+			c.readPos++
+			return 0, r.err
+		}
+		if c.off >= len(r.data) {
+			c.readPos++
+			c.off = 0
+			continue
+		}
+		n := copy(b, r.data[c.off:])
+		c.off += n
+		if c.off >= len(r.data) {
+			c.readPos++
+			c.off = 0
+		}
+		c.bytesRead += n
+		return n, nil
+	}
+	c.readsAfterEnd++
+	if c.glog != nil {
+		*c.glog = append(*c.glog, c.name+":ReadEnd")
+	}
+	if c.endErr != nil {
+		return 0, c.endErr
+	}
+	return 0, verifIOEOF
+}
+
+func (c *verifStreamConn) Write(b []byte) (int, error) {
+	c.writeCalls++
+	c.ev("Write")
+	if c.writeErr != nil {
+		return 0, c.writeErr
+	}
+	c.written = append(c.written, b...)
+	return len(b), nil
+}
+
+func (c *verifStreamConn) Close() error      { c.closed++; c.ev("Close"); return nil }
+func (c *verifStreamConn) CloseRead() error  { c.closedRead++; c.ev("CloseRead"); return nil }
+func (c *verifStreamConn) CloseWrite() error { c.closedWrite++; c.ev("CloseWrite"); return nil }
+func (c *verifStreamConn) LocalAddr() net.Addr {
+	if c.local != nil {
+		return c.local
+	}
+	return &net.TCPAddr{IP: net.IPv4(192, 0, 2, 1), Port: 443}
+}
+func (c *verifStreamConn) RemoteAddr() net.Addr { return c.remote }
+func (c *verifStreamConn) SetDeadline(t time.Time) error {
+	c.ev("SetDeadline")
+	return nil
+}
+func (c *verifStreamConn) SetReadDeadline(t time.Time) error {
+	c.ev("SetReadDeadline")
+	c.deadlines = append(c.deadlines, t)
+	return nil
+}
+func (c *verifStreamConn) SetWriteDeadline(t time.Time) error { return nil }
+
+// client-side encoder: a real Shadowsocks writer into a buffer
+type verifBuf struct{ b []byte }
+
+func (w *verifBuf) Write(p []byte) (int, error) { w.b = append(w.b, p...); return len(p), nil }
+
+func verifClientStream(key *shadowsocks.EncryptionKey, chunks ...[]byte) []byte {
+	buf := &verifBuf{}
+	w := shadowsocks.NewWriter(buf, key)
+	for _, c := range chunks {
+		if _, err := w.Write(c); err != nil {
+			panic(err)
+		}
+	}
+	return buf.b
+}
+
+type verifTCPMetrics struct {
+	authenticated []string
+	closed        []string
+	closedData    []int64
+	probes        []string
+	probeBytes    []int64
+	order         []string
+}
+
+func (m *verifTCPMetrics) AddAuthenticated(accessKey string) {
+	m.authenticated = append(m.authenticated, accessKey)
+	m.order = append(m.order, "auth")
+}
+func (m *verifTCPMetrics) AddClosed(status string, data verifProxyMetrics, duration time.Duration) {
+	m.closed = append(m.closed, status)
+	m.closedData = append(m.closedData, data.ClientProxy, data.ProxyTarget, data.TargetProxy, data.ProxyClient)
+	m.order = append(m.order, "closed")
+}
+func (m *verifTCPMetrics) AddProbe(status, drainResult string, clientProxyBytes int64) {
+	m.probes = append(m.probes, status+"/"+drainResult)
+	m.probeBytes = append(m.probeBytes, clientProxyBytes)
+	m.order = append(m.order, "probe")
+}
+
+func verifNewWriterWithSalt(w io.Writer, key *shadowsocks.EncryptionKey, sg shadowsocks.SaltGenerator) *shadowsocks.Writer {
+	sw := shadowsocks.NewWriter(w, key)
+	sw.SetSaltGenerator(sg)
+	return sw
 }
